@@ -684,6 +684,8 @@ class Interp(object):
                 if isinstance(d, VDict):
                     for k, v in self.resolve_presence(d).items():
                         kwargs[k] = v
+                elif isinstance(d, Native) and hasattr(d, 'kwargs_items'):
+                    kwargs.update(d.kwargs_items())
                 else:
                     self.undecided('** of non-concrete mapping', node)
             else:
